@@ -136,6 +136,7 @@ if __name__ == '__main__':
         for sid in sorted(os.listdir(SEEDED)):
             if os.path.exists(os.path.join(SEEDED, sid, 'meta.json')):
                 g = sid.split('_')[0]; g = 'C09' if g == 'C10' else g
+                if g in os.environ.get('SEEDED_SKIP', '').split(','): continue
                 groups.setdefault(g, []).append(sid)
         def work(sids):
             out = []
